@@ -52,7 +52,12 @@ SerdeOK(e) ==
        [] e.what = "attrs" -> e.back.groups = e.msg.groups
        [] e.what = "value" -> e.back = e.msg
 
+(* counts beyond 65535 (values of one set, attributes of one group, members of one collection): the     *)
+(* harness reports count and digest of the integers sent and of those that came back                    *)
+RtBigOK(e) == e.out.ok /\ e.out.d = e.sent /\ e.out.groups = 1
+
 Step(e) == CASE e.ev = "rt"    -> RtOK(e)
+             [] e.ev = "rtbig" -> RtBigOK(e)
              [] e.ev = "enc"   -> EncOK(e)
              [] e.ev = "parse" -> ParseOK(e)
              [] e.ev = "serde" -> SerdeOK(e)
